@@ -141,7 +141,7 @@ func compareBuilds(rc *runCfg, pl *plan, m *merged) error {
 		m.addInconclusive("transcripts of one build configuration are missing: cross-build comparison not done")
 		return nil
 	}
-	for _, other := range []string{"purego", "386", "amd64v3"} {
+	for _, other := range []string{"purego", "386", "amd64v3", "amd64v4"} {
 		b := byCfg[other]
 		if len(b) == 0 {
 			if other == "386" {
@@ -149,6 +149,9 @@ func compareBuilds(rc *runCfg, pl *plan, m *merged) error {
 			}
 			if other == "amd64v3" {
 				m.addInconclusive("no transcripts from the GOAMD64=v3 build (this machine cannot execute it, or it did not build)")
+			}
+			if other == "amd64v4" && rc.tier == "thorough" {
+				m.addInconclusive("no transcripts from the GOAMD64=v4 build (this machine cannot execute it, or it did not build)")
 			}
 			continue
 		}
@@ -186,6 +189,9 @@ func c20Stages() []stage {
 	st := []stage{{config: "default"}, {config: "purego"}, {config: "386"}}
 	if hostRunsAMD64v3() {
 		st = append(st, stage{config: "amd64v3"})
+	}
+	if hostRunsAMD64v4() {
+		st = append(st, stage{config: "amd64v4", thoroughOnly: true})
 	}
 	return st
 }
